@@ -115,13 +115,12 @@ def bodyReads (cls name : String) : List String :=
   | some m => m.reads
   | none => []
 
-/-- the `self` attributes the value assigned to `attr` in a method / setter is computed from (first such assignment) -/
+/-- the `self` attributes the value assigned to `attr` of an object of class `cls` is computed from, in the resolved effects of
+    a method / setter (first such assignment; own helper methods are looked through) -/
 def assignSrcs (cls name : String) (setter : Bool) (attr : String) : List String :=
-  match Gen.C11.table.find cls name setter with
-  | some m => (m.effs.findSome? fun e => match e.op with
-      | .assign a false srcs => if bare a == attr then some srcs else none
+  ((Gen.C11.table.prims cls name setter).findSome? fun p => match p.op with
+      | .assign a false srcs => if p.cls == cls && bare a == attr then some srcs else none
       | _ => none).getD []
-  | none => []
 
 /-- The fields each cache's deriving code reads, from the extracted table: `_create_occupancy_set`; the recomputation inside the
     `initial_state` setter (plus its parameter, the new state); the `_polygon` assignment; the lazy `distance` / `inner_distance`
@@ -235,8 +234,10 @@ theorem tie_static_translate_rotate (hw : Bool) (o : Obs) (hd : o.dynamic = fals
   unfold Gen.StaticObstacle_translate_rotate
   simp [tie_set_initial_state, Obs.step, hd, Id.run, pure, act, Action.applySimple, Action.apply, Obs.freshInitOcc]
 
-theorem sliceLast_pos {α : Type} (l : List α) (m : Int) (hm : 0 < m) : sliceLast l m = lastN m.toNat l := by
-  simp [sliceLast, lastN, hm]
+theorem sliceLast_pos {α : Type} (l : List α) (m : Int) (hm : 0 < m) : sliceFrom l (-m) = lastN m.toNat l := by
+  have h1 : -m < 0 := by omega
+  have h2 : (- -m).toNat = m.toNat := by simp
+  simp only [sliceFrom, lastN, h1, if_true, h2]
 
 theorem lastN_eq_self {α : Type} {l : List α} {k : Nat} (h : l.length ≤ k) : lastN k l = l := by
   have : l.length - k = 0 := by omega
